@@ -55,6 +55,9 @@ def run(ctx):
                   and not any(x.idx in [y.idx for y, _ in pops if y.idx in an.reach([targets[l]], ('normal',), avoid=[t for l2, t in targets.items() if l2 != l])] for l in targets)]
         ctx.ob('R08.1', 'no pop outside the mode switch', len(pops) == 2, ctx.where(root), '%d pop sites in the getter' % len(pops), construct='pop:extra')
 
+    # ---- R08.6 the mode used is the mode configured ------------------------------------------------------
+    builder_plumbing(ctx, 'R08.6', ['queue_mode', 'config'])
+
     # ---- R08.2 order-preserving methods only ----------------------------------------------
     n = 0
     for b in managed_bodies(prog):
